@@ -39,6 +39,16 @@ def gen(d, tier):
     cmds = [G.g_cmd(d, G.g_name(d, stems), maxvars=2, codes=CODES, var_kw=dict(max_buf=6)) for _ in range(d.rng(1, 8))]
     if d.below(2):
         cmds.append(S.mk_cmd(b"Z", "n"))
+    bias = []
+    if d.chance(1, 4):
+        # a command whose FIRST variable is read-only (parsed, never stored) and has a write callback, followed by a writable one:
+        # what the callback is told must not be left over from an earlier line
+        v0 = G.g_var(d, max_buf=6, access=(S.RO,), callbacks=False)
+        v0["wcb"] = 1
+        v1 = G.g_var(d, max_buf=6, access=(S.RW,), callbacks=True, fails=False)
+        ro = S.mk_cmd(d.pick([b"+RO", b"+TRO", b"R"]), "w" if d.below(2) else "", [v0, v1])
+        cmds.insert(d.below(len(cmds) + 1), ro)
+        bias = [ro] * 3      # (more lines pick it)
     G.fix_implicit_duplicates(cmds)
     inp = bytearray()
     kinds = []
@@ -48,7 +58,7 @@ def gen(d, tier):
             ln = d.pick([b"", b"\r"])
             kinds.append("blank")
         else:
-            ln = G.g_line(d, cmds, valid_bias=True, cap=cc, tails=TAILS)
+            ln = G.g_line(d, cmds + bias, valid_bias=True, cap=cc, tails=TAILS)
             kinds.append("line")
             if d.chance(1, 3):
                 ln = G.damage_line(d, ln, cc, TAILS)
@@ -151,6 +161,7 @@ def run(case, W):
     seg = t.out_by_line(len(lines))
     if seg[0]:
         return Result(violation=("early-output", "output before the first LF: %r" % seg[0]))
+    cbl = t.callbacks_by_line(len(lines))
     runs = 1
     cs = S.all_cmds(s)
     crs = []
@@ -188,6 +199,14 @@ def run(case, W):
             return Result(violation=("crash", str(t1.crash)), runs=runs)
         if t1.out != out:
             return Result(violation=("depends-on-history", "line %d %r: alone it is answered %r, after %r it is answered %r" % (i, raw, t1.out, b"\n".join(lines[:i]), out)), runs=runs)
+        # the line's effect is its own too: the same handler / variable callbacks with the same arguments, and the same variable bytes afterwards
+        if t1.callbacks() != cbl[i + 1]:
+            a, b = t1.callbacks(), cbl[i + 1]
+            j = next((x for x in range(min(len(a), len(b))) if a[x] != b[x]), min(len(a), len(b)))
+            return Result(violation=("callbacks-depend-on-history", "line %d %r: callback #%d alone %r, after %r it is %r" % (i, raw, j, a[j:j + 1], b"\n".join(lines[:i]), b[j:j + 1])), runs=runs)
+        after = t.dumps.get("lf%d" % (i + 2)) if i + 1 < len(lines) else (t.final_vars() if not tail else None)
+        if after is not None and t1.final_vars() != after:
+            return Result(violation=("values-depend-on-history", "line %d %r: variables afterwards alone %r, in the sequence %r" % (i, raw, t1.final_vars(), after)), runs=runs)
     kinds = case.get("meta", {}).get("kinds", [])
     if any(k == "damaged" for k in kinds):
         special = True
